@@ -8,6 +8,9 @@ CHECKS = {
  "C01": ("exploration", "model-based round-trip property test (proptest, boundary-constructing generators, scaled + production constants)",
          "Generated writer programs (interleavings, piece sizes placed on/next to cipher-buffer, chunk and block boundaries, all layer sets, levels, recipients) are executed through the real writer and read back through the real reader; names, bytes, sizes and SHA-256 are compared with an in-memory model. Exploration: finds alignment- and interleaving-dependent defects the suite cannot, establishes nothing beyond the explored programs.",
          "Trusts the harness model, the sha2 crate and that the scaled constants preserve the order/divisibility relations of the production ones; production programs are capped at 9 MiB.", "DESIGN.md section 4 C01"),
+ "C06": ("exploration", "differential property test against an independent implementation of FORMAT.md, both directions, plus incremental AES-GCM vs the aes-gcm crate over generated message splits",
+         "Archives written by the library are decoded by refimpl (written from FORMAT.md only: header, ECIES wrap, nonce||BE32(i) chunks, brotli blocks + sizes footer, typed records, end marker, index) and must yield the model's files and the documented structure; archives encoded by refimpl with free parameters must be read identically by the library; the cipher core must equal standard AES-256-GCM for every split. A symmetric change of writer and reader is caught because the other side is independent.",
+         "Trusts refimpl (self-test pins it to every number FORMAT.md prints for samples/archive_v1.mla) and the aes-gcm, hkdf, sha2, x25519-dalek, brotli crates as primitives.", "DESIGN.md section 4 C06"),
  "C11": ("exploration", "differential property test against io::Cursor over refimpl-encoded layer streams (exhaustive length sweep on scaled constants + random seek/read histories)",
          "Layer streams of every plaintext length (every residue modulo chunk and block on the scaled build, boundary windows on the production build) are encoded by an independent implementation of the format; the library's layer readers, stacked as mlar does, must return the same positions and bytes as an in-memory cursor for generated seek/read histories within [0, L].",
          "Trusts refimpl (anchored to FORMAT.md by a self-test on samples/archive_v1.mla), the aes-gcm / brotli / x25519-dalek / hkdf crates.", "DESIGN.md section 4 C11"),
